@@ -460,6 +460,19 @@ fn target_hit(prop: &str, cmd: &Cmd, cas: bool, state: &str, m: &Model) -> bool 
     }
 }
 
+static INFLIGHT_TRACES: Mutex<BTreeMap<i32, Vec<String>>> = Mutex::new(BTreeMap::new());
+
+/// what the calling thread is about to execute, for the hang watchdog (the thread cannot tell afterwards)
+fn note_inflight(trace: &[String], cmd: &Cmd) {
+    let mut t: Vec<String> = trace.iter().rev().take(12).rev().cloned().collect();
+    t.push(format!("IN FLIGHT: {}", cmd.brief()));
+    INFLIGHT_TRACES.lock().unwrap().insert(crate::gate::gettid(), t);
+}
+
+fn run_case_trace_prefix(_ctx: &Ctx, tid: i32) -> Vec<String> {
+    INFLIGHT_TRACES.lock().unwrap().get(&tid).cloned().unwrap_or_default()
+}
+
 pub fn run_case(ctx: &Ctx, prof: &Profile, case: u64, verbose: bool) -> CaseOut {
     let seed = ctx.case_seed("kv", case);
     let mut rng = SmallRng::seed_from_u64(seed);
@@ -501,6 +514,7 @@ pub fn run_case(ctx: &Ctx, prof: &Profile, case: u64, verbose: bool) -> CaseOut 
                 targets += 1;
                 states.insert((cmd.opcode(), state));
             }
+            note_inflight(&out.trace, &cmd);
             match exec(&mut conn, &mut m, &mut texts, &keys, &cmd, step as u32 ^ 0xa5a5_0000, &mut out.trace) {
                 Ok((obs, _)) => {
                     out.commands += 1;
@@ -596,9 +610,53 @@ pub fn run(ctx: &Ctx) -> i32 {
     let next = AtomicU64::new(0);
     let shared = Mutex::new(ev);
     let deadline = if ctx.budget_s > 0 { Some(std::time::Instant::now() + std::time::Duration::from_secs(ctx.budget_s)) } else { None };
+    // per worker: (case in flight, its start, thread id, cases finished): a command that never returns would
+    // otherwise hang the check; a hang is a verdict (C10 / C16), not a harness problem
+    let inflight: Vec<Mutex<Option<(u64, std::time::Instant, i32)>>> = (0..ctx.workers).map(|_| Mutex::new(None)).collect();
+    let finished = AtomicU64::new(0);
+    let exited = AtomicU64::new(0);
     std::thread::scope(|s| {
-        for _ in 0..ctx.workers {
-            s.spawn(|| {
+        {
+            let (inflight, finished, exited, shared) = (&inflight, &finished, &exited, &shared);
+            s.spawn(move || {
+                let horizon = std::time::Duration::from_secs(if cfg!(miri) { 3600 } else { 30 });
+                loop {
+                    std::thread::sleep(std::time::Duration::from_millis(500));
+                    if exited.load(Ordering::SeqCst) as usize == ctx.workers {
+                        return;
+                    }
+                    for slot in inflight.iter() {
+                        let cur = *slot.lock().unwrap();
+                        if let Some((case, since, tid)) = cur {
+                            if since.elapsed() < horizon {
+                                continue;
+                            }
+                            let still = |slot: &Mutex<Option<(u64, std::time::Instant, i32)>>| slot.lock().unwrap().map(|x| x.0) == Some(case);
+                            let stall = crate::gate::classify_stall(&[tid], &|| if still(slot) { 0 } else { 1 }, 20);
+                            let what = match stall {
+                                crate::gate::Stall::Slow => continue,
+                                crate::gate::Stall::Deadlock(m) => format!("deadlock: {}", m),
+                                crate::gate::Stall::Livelock(m) => format!("livelock: {}", m),
+                            };
+                            let _ = finished;
+                            let trace = run_case_trace_prefix(ctx, tid);
+                            let mut e = shared.lock().unwrap();
+                            e.violation(
+                                Viol::new(&["C10", "C16"], "command-never-returns", format!("case {}: a command did not return within {} s on a single connection ({})", case, horizon.as_secs(), what)),
+                                json!({"engine":"kv","case":case,"replay_cmd":format!("/verif/check {} replay --case {}", ctx.prop, case),"commands_of_the_case":trace}),
+                            );
+                            let ev = std::mem::replace(&mut *e, Evidence::new(ctx, "exploration", RULE));
+                            std::process::exit(ev.finish());
+                        }
+                    }
+                }
+            });
+        }
+        for w in 0..ctx.workers {
+            let (inflight, finished, exited) = (&inflight, &finished, &exited);
+            let (next, shared, prof) = (&next, &shared, &prof);
+            s.spawn(move || {
+                let tid = crate::gate::gettid();
                 let mut local: BTreeMap<String, u64> = BTreeMap::new();
                 let mut fps: Vec<u64> = vec![];
                 let mut n = 0u64;
@@ -614,7 +672,10 @@ pub fn run(ctx: &Ctx) -> i32 {
                     if over {
                         break;
                     }
-                    let o = run_case(ctx, &prof, c, false);
+                    *inflight[w].lock().unwrap() = Some((c, std::time::Instant::now(), tid));
+                    let o = run_case(ctx, prof, c, false);
+                    *inflight[w].lock().unwrap() = None;
+                    finished.fetch_add(1, Ordering::Relaxed);
                     n += 1;
                     cmds += o.commands;
                     comps += o.comparisons;
@@ -643,6 +704,8 @@ pub fn run(ctx: &Ctx) -> i32 {
                 if let Some(s) = sample {
                     e.sample(s);
                 }
+                drop(e);
+                exited.fetch_add(1, Ordering::SeqCst);
             });
         }
     });
